@@ -2243,9 +2243,10 @@ PROP = Property(
         "numpy ufuncs are pure elementwise functions of (dtype, bit pattern) independent of array layout (`**` is only generated on operands whose result is exact, because numpy's SIMD and scalar pow differ in the last bit otherwise); numpy basic indexing, broadcast_to/broadcast_arrays striding (L0 model in Model/Derived.lean, the zero-stride pattern of results is compared in the bcl family)",
         "Python's expression evaluator and the tag regex of glue.core.parse (the Lean lexer/parser is compared with Python's own parser in the gram family)",
         "the reference evaluation in harness/props/c14.py only tabulates the operators' graphs (numpy applied to the full arrays); every verdict is computed by the Lean Spec",
+        "Python object identity / list mutation semantics as modelled by the heap of Model/DerivedHeap.lean (link objects, their _from list objects, ParsedCommand objects); `link.get_from_ids()` of every link object ever created is compared after every step of the obj family",
     ],
     assumptions=["pixel / world component values are inputs (read from the real dataset); their correctness is C04/C15"],
-    rule="exhaustive: all zero-stride patterns x operators x operand kinds (bcl), all leaf pairs x operators at depth 1 and all views of a fixed tree (expr/arith), all insertion orders of a 5-node dependency pattern x every removal, every component order (reorder_components / derived components added before their inputs) of chains of depth 2-3, a diamond, a pixel input and a cyclic pair x link kinds x every removal, the refused calls (pixel component as removal victim, update_id onto stored / pixel / derived ids from a stored, derived, pixel or unknown id, add_component across kinds) on every insertion order (hist); seeded random trees to depth 3/5, user functions, command strings, histories beyond; non-trivial = result with more than one element / history with a removal, update_id or reorder",
+    rule="exhaustive: all zero-stride patterns x operators x operand kinds (bcl), all leaf pairs x operators at depth 1 and all views of a fixed tree (expr/arith), all insertion orders of a 5-node dependency pattern x every removal, every component order (reorder_components / derived components added before their inputs) of chains of depth 2-3, a diamond, a pixel input and a cyclic pair x link kinds x every removal, the refused calls (pixel component as removal victim, update_id onto stored / pixel / derived ids from a stored, derived, pixel or unknown id, add_component across kinds) on every insertion order (hist); link OBJECTS (obj): sub-link kind (binary / user function / parsed) x 8 re-use patterns (left, right, same object twice, both sides, nested to depth 3, with constants, diamond) x which objects back a derived attribute x every removal / update_id of an input or of the shared attribute, two parsed links on one command, two commands from one reference dict; seeded random trees to depth 3/5 (40% with hash-consed subtrees and link objects as operands), user functions, command strings, histories and object programs beyond; non-trivial = result with more than one element / history with a removal, update_id or reorder / object program with a re-used link object and a removal or update_id",
 )
 
 for _f, _share in zip(PROP.families, (0.4, 1.0, 2.0, 1.0, 0.7, 1.5, 1.2, 1.2)):
